@@ -126,7 +126,7 @@ class C20:
         # and `with console.use_theme(theme)` in a loop does)
         pool = [gen_theme(rng) for _ in range(4)]
         return {"ops": ops, "live": rng.random() < 0.25, "base_theme": gen_theme(rng) if rng.random() < 0.3 else None,
-                "pool": pool, "config_themes": [0, 1, 2, 3]}
+                "pool": pool, "config_themes": [0, 1, 2, 3], "xthread": rng.random() < 0.25}
 
     def setup(self, sim, case, env):
         return Prog(sim, case, env)
@@ -174,6 +174,10 @@ class C20:
         if case["config_themes"]:
             c = copy.deepcopy(case)
             c["config_themes"] = []
+            yield c
+        if case.get("xthread"):
+            c = copy.deepcopy(case)
+            c["xthread"] = False
             yield c
         for i, t in enumerate(case["pool"]):
             for name in list(t["styles"]):
@@ -245,10 +249,31 @@ class Prog:
 
         self.probes["lookups"] += 1
         exp = self.model_lookup(name, default)
-        try:
-            got = ("ok", self.console.get_style(name, default=default))
-        except errors.MissingStyle:
-            got = ("err", "MissingStyle")
+        if self.case.get("xthread") and self.probes["lookups"] % 3 == 0:
+            # the look-up is made by another thread than the one that pushed (what the refresh thread
+            # of a Live / Progress does when it renders): the themes pushed on the console count,
+            # whichever thread asks
+            import threading
+
+            box = []
+
+            def work():
+                try:
+                    box.append(("ok", self.console.get_style(name, default=default)))
+                except errors.MissingStyle:
+                    box.append(("err", "MissingStyle"))
+
+            th = threading.Thread(target=work)
+            th.start()
+            th.join()
+            self.probes["lookups_from_another_thread"] = self.probes.get("lookups_from_another_thread", 0) + 1
+            got = box[0] if box else ("err", "look-up thread died")
+            where = (where + " [asked by another thread]").strip()
+        else:
+            try:
+                got = ("ok", self.console.get_style(name, default=default))
+            except errors.MissingStyle:
+                got = ("err", "MissingStyle")
         if exp[0] == "err":
             self.probes["missing_style_lookups"] += 1
         if got != exp:
